@@ -18,7 +18,8 @@ DESIGN_REF = "6/C17"
 LEAN_MODULES = ["Clikit.Props.C17"]
 REQUIRED_THEOREMS = ["Clikit.Props.C17." + n for n in (
     "help_restores", "run_restores", "history_independent", "parser_history_independent", "style_noninterference",
-    "factories_copy", "d20_aliasing_interferes")]
+    "factories_copy", "d20_aliasing_interferes", "style_noninterference_of_copies", "makeStyle_fresh",
+    "styles_wf_decides", "refs_fresh", "refs_fresh_source", "style_noninterference_dec", "style_noninterference_after")]
 TECHNIQUE = ("Lean 4 theorems over the two hidden-state protocols read from the source on every run (help resolver's "
              "leniency save/restore, table-style factories copying cached border styles) + C05 for the parser; differential "
              "histories on one real application vs fresh ones, style construction orders, render-twice")
@@ -29,7 +30,9 @@ LEVEL_TEXT = ("How HelpResolver.create_resolved_command restores the leniency it
               "(history_independent, for every outcome function that reads the state through the leniency settings; parser "
               "scratch state by C05); and for ANY sequence of factory calls and customisations of other styles the border "
               "style of a given style object is unchanged (heap model; D20 kept as a proved counterexample for aliasing "
-              "factories). That no OTHER hidden state exists in the real objects is what the differential histories "
+              "factories); every created style owns a FRESH border object (refs_fresh_source: heap object 3 + j for the j-th style), "
+              "which is also read off the real objects by identity and compared on every styles case (entry c17.styles_wf), so the "
+              "reference `q` of the theorem is the border object of the real style. That no OTHER hidden state exists in the real objects is what the differential histories "
               "(one application vs fresh ones, same process) and the style-order / render-twice runs explore.")
 LEVEL_NOTE = ("Trusted: Lean kernel + standard axioms; tools/genparts/c17.py (AST matching of the try/finally and of the "
               "factories); the hand-written state model (only leniency + parser scratch + border heap are modelled: other "
@@ -144,7 +147,19 @@ def _styles(case):
         else:
             j, f, v = op["custom"]
             setattr(made[j].border_style, FIELDS[f], v)
-    return {"borders": [[getattr(s.border_style, f) for f in FIELDS] for s in made]}
+    # which border-style OBJECT each created style owns, by identity: 0/1/2 = the cached BorderStyle.none/ascii/solid()
+    # instances, 3.. = further objects in order of first appearance (the heap positions of the Lean model)
+    from clikit.ui.style.border_style import BorderStyle
+    heap = [BorderStyle.none(), BorderStyle.ascii(), BorderStyle.solid()]
+    refs = []
+    for s in made:
+        b = s.border_style
+        idx = next((k for k, o in enumerate(heap) if o is b), None)
+        if idx is None:
+            heap.append(b)
+            idx = len(heap) - 1
+        refs.append(idx)
+    return {"borders": [[getattr(s.border_style, f) for f in FIELDS] for s in made], "refs": refs}
 
 
 CALLS = []
@@ -312,8 +327,8 @@ def model_requests(case):
                 made += 1
             else:
                 j, f, v = op["custom"]
-                ops.append({"custom": [3 + j, f, v]})     # the j-th created style owns heap object 3 + j
-        return [{"m": "c17.styles", "ops": ops}]
+                ops.append({"custom": [3 + j, f, v]})     # the j-th created style owns heap object 3 + j (checked: "wf")
+        return [{"m": "c17.styles", "ops": ops}, {"m": "c17.styles_wf", "ops": ops}]
     return []
 
 
@@ -322,7 +337,7 @@ def model_obs(case, answers):
         return {"after": answers[0]}
     if case["k"] == "styles":
         made = len([op for op in case["ops"] if "make" in op])
-        return {"borders": answers[0][3:3 + made]}
+        return {"borders": answers[0][3:3 + made], "wf": answers[1]}
     return {}
 
 
@@ -330,7 +345,13 @@ def impl_view(case, obs):
     if case["k"] == "proto":
         return {"after": obs["after"]}
     if case["k"] == "styles":
-        return {"borders": obs["borders"]}
+        # "wf": what Props.C17.style_noninterference takes about the real factories - they copy, hence the border
+        # object of the j-th created style is a fresh one, heap object 3 + j (refs_fresh_source).  Both are read off
+        # the REAL objects by identity (fresh objects only <=> every factory that was called copied) and compared
+        # with the model's answers (copiesB of the regenerated table, refsOf)
+        made = len(obs["borders"])
+        return {"borders": obs["borders"],
+                "wf": {"copies": obs["refs"] == list(range(3, 3 + made)), "refs": obs["refs"]}}
     return {}
 
 
